@@ -146,8 +146,19 @@ func init() {
 		ev := a[1]
 		n := ghostT(c.st, "evCount")
 		if ev.K == VIface {
+			ref := ev.T
+			// the event is marshalled at emission time: record a snapshot copy of the message object
+			if ev.Tag.K == TNum {
+				if T := typeIDTypes[int(ev.Tag.Num.Int64())]; T != nil && classify(T) == VPtr {
+					et := ptrElem(T)
+					cp := c.st.alloc()
+					if err := c.st.storeObj(et, cp, "", c.st.loadObj(et, ev.T, "", et)); err == nil {
+						ref = cp
+					}
+				}
+			}
 			setGhostT(c, "evTag", Store(ghostT(c.st, "evTag"), n, ev.Tag))
-			setGhostT(c, "evRef", Store(ghostT(c.st, "evRef"), n, ev.T))
+			setGhostT(c, "evRef", Store(ghostT(c.st, "evRef"), n, ref))
 		}
 		c.st.Ghost["evCount"] = valOfSort(Add(n, Num(1)))
 		// EmitTypedEvent fails only if the message cannot be marshalled to JSON; assumed total for the repo's event types
